@@ -205,9 +205,27 @@ def ensure_harness(timeout=1500):
     lock = os.path.join(hd, "Cargo.lock")
     if not os.path.exists(lock):
         shutil.copy(os.path.join(REPO, "Cargo.lock"), lock)
+    # cargo decides freshness by mtime; `git apply` / `git checkout` within one timestamp granule of a build can leave a
+    # stale binary.  Freshness is decided here by content: when the sources differ from those of the last build, touch them.
+    srcs = []
+    for sub in ("packages/beff-core", "packages/beff-wasm"):
+        for root, _, files in os.walk(os.path.join(REPO, sub)):
+            if "/target" in root or "/node_modules" in root: continue
+            srcs += [os.path.join(root, f) for f in files if f.endswith((".rs", ".toml"))]
+    srcs.sort()
+    key = file_hash(srcs + [os.path.join(REPO, "Cargo.lock")])
+    stamp = os.path.join(TARGET, ".src_hash")
+    old = open(stamp).read() if os.path.exists(stamp) else ""
+    if old != key:
+        now = time.time()
+        for f in srcs:
+            if f.endswith(".rs"): os.utime(f, (now, now))
     rc, out, dt = sh("timeout %d cargo build --release --offline 2>&1" % timeout, cwd=hd, timeout=timeout + 30)
     if rc != 0:
         raise RuntimeError("harness build failed:\n" + out[-6000:])
+    os.makedirs(TARGET, exist_ok=True)
+    with open(stamp, "w") as f:
+        f.write(key)
     return dt
 
 
